@@ -364,6 +364,7 @@ VH_TN(unsigned long, "size_t")
 VH_TN(unsigned char, "uint8")
 VH_TN(unsigned short, "uint16")
 VH_TN(short, "int16")
+VH_TN(signed char, "int8")
 #undef VH_TN
 template <typename T>
 inline const char * tn()
